@@ -330,6 +330,15 @@ func pauses(part, parts int) {
 				for _, p := range []int32{999, 1000, 9999, 10000, 10001, 59999, 60001, 3600000, 86400001, 1 << 30} {
 					play(sq, w, []int{k, n - k, 3}, []int32{1, p, 1}, "pause-inside")
 					ctx.Add("pauses_inside_messages", 1)
+					// the same behind an active sensing byte (a receiver that has
+					// seen one may watch the clock from then on)
+					for _, a := range alphabet {
+						if a.Name == "ActiveSense" {
+							sq2 := []ls.SMsg{a, m, alphabet[0]}
+							w2 := ls.Serialize(sq2, 0)
+							play(sq2, w2, []int{1, k, n - k, 3}, []int32{1, 1, p, 1}, "pause-inside")
+						}
+					}
 				}
 			}
 		}
